@@ -23,6 +23,12 @@ type Clause struct {
 	Line  int
 }
 
+type SnapSpec struct {
+	Name string
+	Expr ast.Expr
+	Text string
+}
+
 type AtClause struct {
 	Site    int // 0: every site of Callee; N: only its N-th call site
 	Callee  string
@@ -46,6 +52,8 @@ type FuncContract struct {
 	Invs     map[int][]Clause
 	Binds    map[int][]string
 	BindCalls map[string][]string // callee name -> names for the results of its first call site
+	KeepsCalls map[string][]SnapSpec // callee name -> maps/slices of the caller that a call of it is ASSUMED not to write (tree-shape assumptions)
+	SnapCalls map[string][]SnapSpec // callee name -> expressions evaluated right after its call returns (a snapshot: later writes do not change it)
 	Lets     []LetClause
 	SafetyProps []string
 	CloseChan   bool
@@ -176,6 +184,8 @@ func splitNames(s string) []string {
 var funcHdrRe = regexp.MustCompile(`^func\s+([A-Za-z0-9_.$]+)\s*\(([^)]*)\)\s*(?:\(([^)]*)\))?\s*$`)
 var atRe = regexp.MustCompile(`^at\s+([A-Za-z0-9_.$#]+)\s*\(([^)]*)\)\s*(\[[A-Z0-9, ]+\])?\s*:\s*(.*)$`)
 var loopRe = regexp.MustCompile(`^(noexit|invariant|bind)\s+loop\s+(\d+)\s*(.*)$`)
+var snapCallRe = regexp.MustCompile(`^snap\s+call\s+([A-Za-z0-9_.$]+)\s*:\s*([A-Za-z0-9_]+)\s*=\s*(.*)$`)
+var keepsCallRe = regexp.MustCompile(`^keeps\s+call\s+([A-Za-z0-9_.$]+)\s*:\s*(.*)$`)
 var bindCallRe = regexp.MustCompile(`^bind\s+call\s+([A-Za-z0-9_.$]+)\s*:\s*(.*)$`)
 
 // sugar: A ==> B  (lowest precedence, right associative) becomes implies(A, B); A <==> B becomes iff(A,B)
@@ -395,7 +405,7 @@ func parseContractFile(path, pkgPath string, preds map[string]*Pred) ([]*FuncCon
 			word, rest = t[:i], strings.TrimSpace(t[i+1:])
 		}
 		switch word {
-		case "requires", "requires-assumed", "ensures", "tags":
+		case "requires", "requires-assumed", "ensures", "ensures-assumed", "tags":
 			props, body := parseProps(rest)
 			ex, err := parseExprText(body)
 			if err != nil {
@@ -410,6 +420,9 @@ func parseContractFile(path, pkgPath string, preds map[string]*Pred) ([]*FuncCon
 				c.Assumed = true
 				cur.Requires = append(cur.Requires, c)
 			case "ensures":
+				cur.Ensures = append(cur.Ensures, c)
+			case "ensures-assumed":
+				c.Assumed = true
 				cur.Ensures = append(cur.Ensures, c)
 			default:
 				// ghost labelling of results with fresh uninterpreted relations: assumed at call sites, nothing to prove
@@ -532,6 +545,38 @@ func parseContractFile(path, pkgPath string, preds map[string]*Pred) ([]*FuncCon
 				callee = callee[:i]
 			}
 			cur.Ats = append(cur.Ats, AtClause{Callee: callee, Site: siteSel, Binders: splitNames(m[2]), Props: props, Text: m[4], Expr: ex, Line: l.no})
+		case "keeps":
+			km := keepsCallRe.FindStringSubmatch(t)
+			if km == nil {
+				return nil, fail(l, "malformed keeps clause (keeps call Callee: expr, expr)")
+			}
+			if cur.KeepsCalls == nil {
+				cur.KeepsCalls = map[string][]SnapSpec{}
+			}
+			for _, part := range splitTopLevel(km[2]) {
+				part = strings.TrimSpace(part)
+				if part == "" {
+					continue
+				}
+				ex, err := parseExprText(part)
+				if err != nil {
+					return nil, fail(l, "parse: %v", err)
+				}
+				cur.KeepsCalls[km[1]] = append(cur.KeepsCalls[km[1]], SnapSpec{Name: part, Expr: ex, Text: part})
+			}
+		case "snap":
+			sm := snapCallRe.FindStringSubmatch(t)
+			if sm == nil {
+				return nil, fail(l, "malformed snap clause (snap call Callee: name = expr)")
+			}
+			ex, err := parseExprText(sm[3])
+			if err != nil {
+				return nil, fail(l, "parse: %v", err)
+			}
+			if cur.SnapCalls == nil {
+				cur.SnapCalls = map[string][]SnapSpec{}
+			}
+			cur.SnapCalls[sm[1]] = append(cur.SnapCalls[sm[1]], SnapSpec{Name: sm[2], Expr: ex, Text: sm[3]})
 		case "noexit", "invariant", "bind":
 			if bm := bindCallRe.FindStringSubmatch(t); bm != nil {
 				if cur.BindCalls == nil {
@@ -685,6 +730,11 @@ func (c *FuncContract) usesInternalNames(ex ast.Expr) bool {
 	for _, ns := range c.Binds {
 		for _, n := range ns {
 			internal[n] = true
+		}
+	}
+	for _, ss := range c.SnapCalls {
+		for _, sp := range ss {
+			internal[sp.Name] = true
 		}
 	}
 	found := false
